@@ -5,13 +5,16 @@ Field statements are order-only (`ScOrd`), hence valid for IEEE floats: the
 untouched saturation/lightness/alpha of a *valid* colour come back IEEE-equal
 (`feq`, i.e. equal up to the sign of a zero) because `clamp` is the identity
 on `[0,1]`.  The touched channel is `clamp 0 1 (old + amount)` by definition.
-Hue statements at `ℝ`.  Luminance monotonicity under `lighten` is not proved
-here (it is searched by the check on random pairs and along l-lines).
+Hue statements at `ℝ`.  Luminance monotonicity under `lighten`/`darken` is
+proved at `ℝ` for every valid colour and every non-negative amount
+(`lighten_luminance_mono`); the first attempt at that proof exposed the
+discontinuous 0.03928 threshold of `luminance` (fixed in e8f6984).
 -/
 import Pastel.RealInst
 import Pastel.Lemmas.Clamp
 import Pastel.Props.C05
 import Pastel.Model.SetCmd
+import Pastel.Lemmas.LightMono
 
 namespace Pastel.C06
 open Pastel Sc ScOrd Pastel.C05
@@ -84,5 +87,54 @@ theorem set_valid {β : Type} [ScT β] [ScOrd β] (p : SetProp) (v : β) (c : Co
     | exact fromOklab_valid _ _ _ _
     | exact fromLab_valid _ _ _ _
     | exact fromLch_valid _ _ _ _
+
+/-! ### Lightening never lowers the WCAG luminance -/
+
+/-- What `Valid` says at `ℝ`, in Mathlib's terms. -/
+theorem valid_real (c : Color ℝ) (hc : Valid c) :
+    0 ≤ c.sat ∧ c.sat ≤ 1 ∧ 0 ≤ c.light ∧ c.light ≤ 1 := by
+  obtain ⟨_, a, b⟩ := hc.sat_range
+  obtain ⟨_, d, e⟩ := hc.light_range
+  sc_norm
+  exact ⟨by simpa using a, by simpa using b, by simpa using d, by simpa using e⟩
+
+/-- **`lighten` by a non-negative amount never lowers the luminance** (every valid colour, every
+amount `f ≥ 0`, exact arithmetic). -/
+theorem lighten_luminance_mono (c : Color ℝ) (hc : Valid c) (f : ℝ) (hf : 0 ≤ f) :
+    luminance c ≤ luminance (lighten c f) := by
+  obtain ⟨s0, s1, l0, l1⟩ := valid_real c hc
+  apply luminance_mono_light
+  · show hueValue c.hue = hueValue (hueFrom (hueValue c.hue))
+    have : hueFrom (hueValue c.hue) = hueValue c.hue := by unfold hueFrom; simp
+    rw [this, real_hueValue_idem]
+  · simp only [lighten, fromHsla, clamp]; sc_norm; push_cast
+    rw [min_eq_right s1, max_eq_left s0]
+  · exact s0
+  · exact s1
+  · simp only [lighten, fromHsla, clamp]; sc_norm; push_cast
+    apply le_max_of_le_left
+    apply le_min l1
+    linarith
+
+/-- **`darken` by a non-negative amount never raises it.** -/
+theorem darken_luminance_mono (c : Color ℝ) (hc : Valid c) (f : ℝ) (hf : 0 ≤ f) :
+    luminance (darken c f) ≤ luminance c := by
+  obtain ⟨s0, s1, l0, l1⟩ := valid_real c hc
+  have hsat : (darken c f).sat = c.sat := by
+    simp only [darken, lighten, fromHsla, clamp]; sc_norm; push_cast
+    rw [min_eq_right s1, max_eq_left s0]
+  apply luminance_mono_light
+  · show hueValue (hueFrom (hueValue c.hue)) = hueValue c.hue
+    have : hueFrom (hueValue c.hue) = hueValue c.hue := by unfold hueFrom; simp
+    rw [this, real_hueValue_idem]
+  · exact hsat
+  · rw [hsat]; exact s0
+  · rw [hsat]; exact s1
+  · simp only [darken, lighten, fromHsla, clamp]; sc_norm; push_cast
+    apply max_le _ l0
+    exact _root_.le_trans (min_le_right _ _) (by linarith)
+
+/-- Non-vacuity: a valid colour that is not fixed by lightening. -/
+example : Valid (fromHsla (10 : ℝ) 0.5 0.25 1) := fromHsla_valid _ _ _ _
 
 end Pastel.C06
